@@ -14,7 +14,7 @@ META = {
             "database; H3 nothing reachable from a query or an Analysis method touches fs/env/time/process/thread/rand; H4 every "
             "iteration over a RandomState-hashed collection in query-reachable code feeds only order-insensitive consumers, is "
             "sorted afterwards, or matches a reviewed entry whose consumer signature is unchanged; raw intern ids are used only in "
-            "dependency_order_query; H5 definitions are interned only in module_scope_with_map_query. One obligation per site. H6 no equality reachable from a salsa query value compares an insertion-ordered container (IndexMap/IndexSet) with its order-insensitive ==: salsa back-dates on equality, so dependents would keep the old order.",
+            "dependency_order_query; H5 definitions are interned only in module_scope_with_map_query. One obligation per site. H6 no equality reachable from a salsa query value compares an insertion-ordered container (IndexMap/IndexSet) with its order-insensitive ==: salsa back-dates on equality, so dependents would keep the old order. H7 a hand-written PartialEq of a type inside a query value reads every field, none only through keys()/len()/.. .",
     "explanation": "Decides that every answer is a function of the salsa inputs alone and that no hidden iteration order leaks "
                    "into answers: the necessary structural conditions for history-independence and determinism. Equality of answers "
                    "across histories itself needs executions and is not decided; salsa's incremental correctness is trusted.",
@@ -318,7 +318,7 @@ def run(F, res, tier):
     value_equality_rules(F, res)
 
 
-def value_equality_rules(F, res, rule="H6"):
+def value_equality_rules(F, res, rule="H6", rule2="H7"):
     """salsa keeps the *dependents'* memoised values when a recomputed value compares equal to the old one (back-dating). So the
     equality of a query value must distinguish everything a consumer can observe of it - in particular the order of an
     insertion-ordered container (IndexMap / IndexSet equality ignores order, their iteration exposes it)."""
@@ -360,6 +360,7 @@ def value_equality_rules(F, res, rule="H6"):
                         via[e] = via[p] + [m.group(1)]
                         st.append(e)
     res.floor("PartialEq impls reachable from query values", len(seen), 96)
+    handwritten_equality_is_complete(F, res, seen, rule=rule2)
     keys = sorted({"/".join(v) for v, _, _ in bad})
     for k in keys:
         where = [w for v, w, _ in bad if "/".join(v) == k][0]
@@ -370,3 +371,64 @@ def value_equality_rules(F, res, rule="H6"):
     res.ob(rule, "value-eq-order", "no equality reachable from a salsa query value compares an insertion-ordered container (IndexMap / IndexSet) "
            "with its order-insensitive `==`", not bad, where="crates/ide/src/def/scope.rs",
            how="%d query value types, %d PartialEq impls followed; offending: %s" % (len(roots), len(seen), keys))
+
+
+NARROW_VIEWS = ("::keys", "::values", "::len", "::is_empty", "::first", "::last", "::get", "::contains_key", "::contains",
+                "::into_keys", "::into_values", "::get_index", "::capacity")
+
+
+def handwritten_equality_is_complete(F, res, eqs, rule="H7"):
+    """H7: a hand-written PartialEq of a type inside a salsa query value decides what salsa may back-date. It must look at
+    every field of the type (of every variant), and at each field as a whole - not through a narrowing view such as keys(),
+    len() or first(). A field it ignores can change without the dependents of the query being recomputed."""
+    import re as _re
+    n = 0
+    for p in sorted(eqs):
+        f = F.fns[p]
+        if (f.d.get("span") or {}).get("exp"):
+            continue          # derived: complete by construction
+        m = _re.match(r"^<((?:ide|syntax)::[A-Za-z0-9_:]+)(?:<.*>)? as core::cmp::PartialEq>::eq$", p)
+        adt = F.adt(m.group(1)) if m else None
+        if not adt:
+            continue
+        n += 1
+        T = m.group(1)
+        fields = {fl["name"] for v in adt["variants"] for fl in v["fields"] if not (fl.get("ty") or "").startswith("core::marker::PhantomData")}
+        views = {}      # field -> set of callee names it is handed to (or "<direct>" when compared as a value)
+        for q in [p] + list(F.closures_of(p)):
+            g = F.fns[q]
+            d = FL.Defs(g)
+
+            def fld(op):
+                o = d.origin_op(op)
+                if o.get("k") == "rv" and o["rv"]["k"] == "ref":
+                    o = d.origin_place(o["rv"]["place"])
+                if o.get("k") == "field":
+                    names = [e.get("n") for e in o.get("proj", []) if isinstance(e, dict) and (e.get("adt") or "") == T and e.get("n")]
+                    return names[-1] if names else None
+                return None
+            for b, t in g.calls():
+                c = callee(t) or callee_def(t) or ""
+                for a in t["args"]:
+                    x = fld(a)
+                    if x:
+                        views.setdefault(x, set()).add(c)
+            for b, i, s in g.stmts():
+                rv = s.get("rv") or {}
+                if rv.get("k") == "bin" and rv["op"] in ("Eq", "Ne"):
+                    for side in ("a", "b"):
+                        x = fld(rv[side])
+                        if x:
+                            views.setdefault(x, set()).add("<direct>")
+                # any other read of the field (matched, copied into a local that is compared later)
+                for e in ((rv.get("place") or {}).get("p") or []) + [e2 for o_ in ([rv.get("op")] if isinstance(rv.get("op"), dict) else [])
+                                                                         for e2 in ((o_.get("cp") or o_.get("mv") or {}).get("p") or [])]:
+                    if isinstance(e, dict) and (e.get("adt") or "") == T and e.get("n"):
+                        views.setdefault(e["n"], set())
+        unread = sorted(fields - set(views))
+        narrow = sorted(x for x, cs in views.items() if cs and all(any(c.endswith(nv) for nv in NARROW_VIEWS) for c in cs))
+        res.ob(rule, "eq-complete/%s" % T.replace("ide::", ""), "the hand-written equality of %s compares every field, each as a whole" % T.rsplit("::", 1)[-1],
+               not unread and not narrow, where=f.loc(),
+               how="fields never read: %s; fields compared only through a narrowing view: %s" % (unread, {x: sorted(FL.short(c) for c in views[x]) for x in narrow})
+               if unread or narrow else "%d fields, all read and none only through keys()/len()/.." % len(fields))
+    res.floor("hand-written PartialEq impls among the query value types", n, 1)
